@@ -38,6 +38,8 @@ PROP = dict(
              quick=dict(cases=5000, secs=10), thorough=dict(cases=300000, secs=60)),
         dict(name='c12_digest', src=['props/C12/digest.cc'] + _O, libs=_L,
              quick=dict(cases=130000, secs=15), thorough=dict(cases=12000000, secs=180)),
+        dict(name='c12_digest_huge', src=['props/C12/digest.cc'] + _O, libs=_L, defs=['C12_HUGE'], enumerate=True,
+             quick=dict(cases=0, secs=120, stride=4), thorough=dict(cases=0, secs=400, stride=1)),
         dict(name='c12_hmac_kdf', src=['props/C12/hmac_kdf.cc'] + _O, libs=_L,
              quick=dict(cases=130000, secs=20), thorough=dict(cases=6000000, secs=180)),
         dict(name='c12_cipher', src=['props/C12/cipher.cc'] + _O, libs=_L,
